@@ -765,7 +765,8 @@ class Interp:
 
     def empty_dict(self, ty: TDict) -> SV:
         dom = z3.K(ty.k.sort(), z3.BoolVal(False))
-        val = self.fresh("dv0", z3.ArraySort(ty.k.sort(), ty.v.sort()))
+        # canonical empty dict: absent keys map to one fixed default element of the value sort
+        val = z3.K(ty.k.sort(), z3.Const("dflt_" + _m(ty.v.name), ty.v.sort()))
         if ty.ordered:
             return SV(ty, ty.mk(dom, val, z3.Empty(z3.SeqSort(ty.k.sort()))))
         return SV(ty, ty.mk(dom, val))
